@@ -473,6 +473,11 @@ Definition out_trace (o : outcome) : list effect :=
 Definition failures_of (unfailed : outcome) : list (nat * xcls) :=
   flat_map (fun k => map (fun x => (k, x)) all_xcls) (seq 0 (List.length (filter (fun e => negb (str_eqb (ename e) (lit "config.set"))) (out_trace unfailed)))).
 
+Definition all_failures (P : program) (o : opts) : list (option (nat * xcls)) :=
+  None :: map Some (failures_of (run_initialize P o None)).
+Definition all_failures_sec (P : program) (o : opts) : list (option (nat * xcls)) :=
+  None :: map Some (failures_of (run_security P o None)).
+
 (* ---------------- reading a trace ---------------- *)
 Definition is_name (n : string) (e : effect) : bool := str_eqb (ename e) (lit n).
 Definition is_bind (e : effect) : bool := is_name "server_class" e.
@@ -550,3 +555,8 @@ Definition outcome_aborted_at (k : nat) (o : outcome) : bool :=
    object, not an external call, and has no failure position) *)
 Definition calls_of (tr : list effect) : list effect :=
   filter (fun e => negb (str_eqb (ename e) (lit "config.set"))) tr.
+
+(* symbolic ids handed to setregid / setreuid: element 2 of the pwd / grp record
+   of the configured name *)
+Definition UIDV : str := lit "pwd.getpwnam(alice)[2]".
+Definition GIDV : str := lit "grp.getgrnam(staff)[2]".
